@@ -282,7 +282,7 @@ func c14Worker(args []string) int {
 	// on an idle, healthy server it has to complete. If it does not AND a goroutine sits blocked inside the storage
 	// package at identical frames in two dumps 2 s apart, something a query left behind is still waited for.
 	noopReloads, stormErr, idleErr, stuck := 0, "", "", ""
-	if b.Driver == "rocksdb" && opt.ReloadTimeout == 0 && ctrl == "" {
+	if b.Driver == "rocksdb" && opt.ReloadTimeout == 0 {
 		journal("%s catch-up storm", bname)
 		var stormStop int32
 		var swg sync.WaitGroup
